@@ -3,7 +3,7 @@
 # checks, and undoes it straight afterwards (git checkout -- .). Add -R as first arg to reverse-apply.
 REV=""
 if [ "$1" = "-R" ]; then REV="-R"; shift; fi
-P="$1"; shift
+P="$(realpath "$1")"; shift
 cd /repo || exit 2
 if ! git apply $REV "$P"; then echo "patch does not apply"; exit 2; fi
 cd /verif
